@@ -10,6 +10,7 @@ import (
 type zzIdleProbe struct {
 	g          *zzIdleGhost
 	panicFirst bool
+	panicInactive bool
 	events     int
 }
 
@@ -50,6 +51,19 @@ func (p *zzIdleProbe) HandleEvent(ctx EventContext, ev Event) {
 		panic("zz: event handler failure")
 	}
 	ctx.HandleEvent(ev)
+}
+
+// HandleInactive: the probe sits behind the idle handler, so the inactive event has passed the idle handler when it
+// arrives here. A downstream handler takes time (scheduling point) and may fail.
+func (p *zzIdleProbe) HandleInactive(ctx InactiveContext, ex Exception) {
+	g := p.g
+	g.firesAtInactive = vrt.Fires()
+	g.inactive = true
+	vrt.Yield()
+	if p.panicInactive {
+		panic("zz: inactive handler failure")
+	}
+	ctx.HandleInactive(ex)
 }
 
 func (p *zzIdleProbe) HandleException(ctx ExceptionContext, ex Exception) {
@@ -93,9 +107,9 @@ func ZZ_C20_Idle(kind, traffic, withInactive, panicFirst int) {
 	}
 	vrt.Advance(int64(adv[vrt.Choose(len(adv))]))
 	if withInactive != 0 {
-		pl.FireChannelInactive(zzErrUserClose)
-		g.firesAtInactive = vrt.Fires()
-		g.inactive = true
+		probe.panicInactive = withInactive == 2 // a handler behind the idle handler fails while it handles inactive
+		pv := vrt.Panics(func() { pl.FireChannelInactive(zzErrUserClose) })
+		vrt.Assert((pv != nil) == (withInactive == 2), "c20-inactive-event-delivered-downstream")
 	}
 	vrt.Quiesce()
 	if withInactive != 0 {
